@@ -12,7 +12,8 @@ from collections import OrderedDict as odict
 from .refmatch import ref_match
 
 WORDS = ["a", "b", "c", "d", "1", "2", "3"]
-HEADS = ["alpha", "beta", "gamma", "delta", "eps", "zeta", "eta", "theta"]
+HEADS = ["alpha", "beta", "gamma", "delta", "eps", "zeta", "eta", "theta", "notify", "undone"]
+# ("notify" / "undone" merely START with the letters of a negation word (no / undo): they are plain rules, not negated ones)
 UNKNOWN_HEAD = "unk"
 
 
@@ -120,7 +121,12 @@ def gen_rules(rnd, depth=0, heads=None, opts=None):
             lg = "common.permanent" if ("common.permanent" in logics and rnd.random() < 0.3) else None
             rules.append(rule(toks, gen_rules(rnd, depth + 1, sub, opts), logic=lg))
         elif depth < 2 and kind < 0.48 and opts.get("ordered", True):
-            rules.append(rule(toks + ["*"] if "*" not in toks else toks, [rule(["rule", "~"], ordered=True)]))
+            if depth < 1 and rnd.random() < 0.35 and opts.get("ordered_blocks", True):
+                # %ordered BLOCK rules (entries that have their own children), e.g. numbered policy nodes
+                sub2 = [rule(["set", "*"]), rule(["match", "~"])]
+                rules.append(rule(toks + ["*"] if "*" not in toks else toks, [rule(["entry", "*"], sub2, ordered=True)]))
+            else:
+                rules.append(rule(toks + ["*"] if "*" not in toks else toks, [rule(["rule", "~"], ordered=True)]))
         elif depth < 2 and kind < 0.58 and opts.get("rewrite", True):
             rules.append(rule(toks + ["*"] if "*" not in toks else toks, [rule(["~"], rewrite=True, glob=True)]))
         else:
@@ -157,7 +163,8 @@ def gen_tree(rnd, ctx, unknown=0.0):
             if k is None or k[0] != r["id"] or k in seen:
                 continue
             seen.add(k)
-            t[row] = gen_tree(rnd, ctx.child(r), unknown) if is_block(r) else odict()
+            # no foreign rows inside %ordered blocks: a moved block is removed and re-created, which cannot preserve lines annet does not know
+            t[row] = gen_tree(rnd, ctx.child(r), 0.0 if r.get("ordered") else unknown) if is_block(r) else odict()
     if unknown and rnd.random() < unknown:
         t[UNKNOWN_HEAD + " " + rnd.choice(WORDS)] = odict()
     items = list(t.items())
@@ -197,7 +204,7 @@ def mutate(rnd, ctx, tree, unknown=0.0):
         if (r["id"], key) in seen:
             continue
         seen.add((r["id"], key))
-        out[row] = mutate(rnd, ctx.child(r), ch, unknown) if is_block(r) else odict()
+        out[row] = mutate(rnd, ctx.child(r), ch, 0.0 if r.get("ordered") else unknown) if is_block(r) else odict()
     for row, ch in gen_tree(rnd, ctx, unknown).items():
         k = ctx.ident(row)
         if k is None:
